@@ -27,7 +27,7 @@ ASSUMPTIONS = ["graph canonicalisation by WL refinement can only err toward 'equ
 
 
 def budget(tier):
-    return {"examples": 208 if tier == "quick" else 8000, "wall_s": 130 if tier == "quick" else 1700}
+    return {"examples": 208 if tier == "quick" else 8000, "wall_s": 130 if tier == "quick" else 900}
 
 
 @st.composite
